@@ -5,7 +5,7 @@ CONSTANTS
   LoadFix = TRUE
   LoadReach <- PinnedReach
   InstSet = {1}
-  SpellSet = {11, 12, 13, 14, 15, 16, 17, 18}
+  SpellSet = {11, 12, 13, 14, 15, 16, 17, 18, 20}
   MaxUnits = 3
   ProtoInsts = {}
   ProtoSpells = {}
